@@ -92,6 +92,28 @@ func dice(rng *rng.RNG) func(int) int {
 	}
 }
 
+// checkedRandomRange is randomRange with its bounds validated
+func checkedRandomRange(rng *rng.RNG) func(int, int) (int, error) {
+	unchecked := randomRange(rng)
+	return func(lowerBound, upperBound int) (int, error) {
+		if upperBound-lowerBound+1 <= 0 { // also catches ranges too wide for an int
+			return 0, fmt.Errorf("invalid range [%v, %v]", lowerBound, upperBound)
+		}
+		return unchecked(lowerBound, upperBound), nil
+	}
+}
+
+// checkedDice is dice with its number of sides validated
+func checkedDice(rng *rng.RNG) func(int) (int, error) {
+	unchecked := dice(rng)
+	return func(sides int) (int, error) {
+		if sides < 1 {
+			return 0, fmt.Errorf("a dice must have at least one side, got %v", sides)
+		}
+		return unchecked(sides), nil
+	}
+}
+
 // round rounds f to the nearest integer
 func round(f float64) float64 {
 	return math.Round(f)
